@@ -31,6 +31,9 @@ CLAIMED["C18"] = dict(tech="stateful property-based testing (rapid): generated e
 CLAIMED["C09"] = dict(tech="stateful property-based testing (rapid): histories of case-switching upserts against a harness model",
       text="Generated-history search: 1-8 upserts of independently drawn fragments into schemas with several choices per container, nested choices, choices in lists, cases holding leaves/containers/lists, on the reference store and map-backed Reflect/Node stores, from reference or JSON sources. After every step no choice may hold two cases in the store's backing data and the data must equal the model.",
       note="Reads of the selected case are covered by C04's export check; rpc-input choices are not generated.", ref="7 C09")
+CLAIMED["C08"] = dict(tech="property-based testing (rapid) against the harness tree model: every rendering of the path to a generated target, plus absent / unknown targets",
+      text="Generated-input search: schema + data with lists in lists, compound keys, key types string/int/bool/enum and key strings full of URL metacharacters and non-ASCII; target = container, list, entry or leaf present in the tree, or an absent key, absent container or unknown name; start = root, an ancestor or a container elsewhere (../ steps); rendering options: module-qualified segments, trailing slash, encode-everything vs encode-what-is-required, read-filter query attached. The selection must be on the same schema node with the same keys and content, its rendered path must find it again, absent data gives (nil, nil), an unknown name a not-found error, and the store's backing data is unchanged.",
+      note="../ starts are containers reached through containers (the parent selection of a list entry is the list). The rendered path is only re-found for keys that need no escaping (Path.String does not escape).", ref="7 C08")
 NOT_YET = {}
 props = [json.loads(l) for l in open(os.path.join(ROOT, "properties.jsonl"))]
 checks, na = [], []
